@@ -234,6 +234,8 @@ LINES = [
     ("json-list", lambda n: b"[1, 2]\n"),
     ("json-string", lambda n: b"\"task_uuid\"\n"),
     ("json-bool", lambda n: b"true\n"),
+    ("json-string-naming-fields", lambda n: b"\"lacks task_uuid / task_level / timestamp\"\n"),
+    ("json-list-naming-fields", lambda n: b"[\"timestamp\", \"task_uuid\", \"task_level\", \"message_type\"]\n"),
     ("incomplete-object", lambda n: b"{\"task_uuid\": \"u\", \"timestamp\": 1}\n"),
     ("empty-line", lambda n: b"\n"),
     ("truncated-json", lambda n: b"{\"task_uuid\": \"u\", \"ta"),
@@ -344,11 +346,11 @@ OBLIGATIONS = [
         E2,
         body_E2,
         "X",
-        desc="eliot-prettyprint on mixed input streams (12 line kinds, 4 option sets) and eliot.filter (identity, SKIP, datetime, field extraction giving null/0/false/empty values, main) on their valid / JSON lines",
+        desc="eliot-prettyprint on mixed input streams (14 line kinds, 4 option sets) and eliot.filter (identity, SKIP, datetime, field extraction giving null/0/false/empty values, main) on their valid / JSON lines",
         functions=["prettyprint._main", "EliotFilter.run", "EliotFilter._evaluate", "eliot.filter.main", "_DatetimeJSONEncoder"],
         shards=lambda tier: [dict({"max_lines": 2 if tier == "quick" else 3}, prefix=p) for p in enumerate_prefixes(body_E2, "X", {}, {"max_lines": 2 if tier == "quick" else 3}, 2)],
         twin=[{"max_lines": 3, "twin_label": "foreign-then-valid"}],
         timeout={"quick": 100, "thorough": 600},
-        bounds={"quick": "streams of <= 2 lines from 12 kinds x 4 option sets", "thorough": "streams of <= 3 lines"},
+        bounds={"quick": "streams of <= 2 lines from 14 kinds x 4 option sets", "thorough": "streams of <= 3 lines"},
     ),
 ]
